@@ -29,6 +29,18 @@ class RangeV(object):
         self.n = n
 
 
+class KeysTuple(object):
+    """tuple(d) of a dict whose keys are types (config.serialize_handlers)"""
+    def __init__(self, d):
+        self.d = d
+
+
+class TypeSet(object):
+    """a tuple of classes partly known statically (meta) and partly the keys of a symbolic dict"""
+    def __init__(self, meta, d):
+        self.meta, self.d = tuple(meta), d
+
+
 class LazySeq(object):
     """result of a generator expression: behaves like the list it would produce"""
     def __init__(self, lst):
@@ -205,10 +217,61 @@ class Table(object):
         raise Unsupported("dict(...) with arguments")
 
     def update_method(self, ex, st, c, args, kwargs, node):
-        raise Unsupported(".update()")
+        """d.update(other dict): keys of both, values of `other` win; set.update(iterable of hashables): union"""
+        from . import builtins_model as B
+        used("dict.update / set.update", self.update_method.__doc__.strip())
+        o = ex.lift(args[0])
+        k = z3.Const("k!upd", V.Key)
+        n = V.fresh("updlen", z3.IntSort())
+        newd = V.VDict(n, z3.Lambda([k], z3.Or(z3.Select(Val.dhas(c), k), z3.Select(Val.dhas(o), k))),
+                       z3.Lambda([k], z3.If(z3.Select(Val.dhas(o), k), z3.Select(Val.dget(o), k), z3.Select(Val.dget(c), k))))
+        alts = [(z3.And(V.is_dict(c), V.is_dict(o)), ("val", newd)),
+                (z3.And(V.is_set(c), z3.Or(V.is_list(o), V.is_tuple(o), V.is_set(o), V.is_dict(o))), ("val", ("setupd",))),
+                # iterables of key/value pairs are not modelled: any non-dict argument is rejected
+                (z3.And(V.is_dict(c), z3.Not(V.is_dict(o))), ("raise", TypeError)),
+                (z3.And(V.is_set(c), z3.Not(z3.Or(V.is_list(o), V.is_tuple(o), V.is_set(o), V.is_dict(o)))), ("raise", TypeError)),
+                (z3.Not(z3.Or(V.is_dict(c), V.is_set(c))), ("raise", AttributeError))]
+        out = []
+        for s2, payload in ex.fork(st, alts, "update"):
+            if payload[0] == "val" and isinstance(payload[1], tuple):
+                s2 = s2.copy()
+                ns = V.fresh("setupd")
+                s2.assume(z3.And(V.is_set(ns), Val.slen(ns) >= Val.slen(c), z3.Not(Val.frozen(ns))))
+                payload = ("val", ns)
+            elif payload[0] == "val":
+                s2 = s2.copy()
+                s2.assume(z3.And(n >= Val.dlen(c), n >= Val.dlen(o), n <= Val.dlen(c) + Val.dlen(o)))
+            s3, oc = ex.raise_alt(s2, payload)
+            if oc[0] == "raise":
+                out.append((s3, oc))
+                continue
+            for s4, ctl in B.writeback(ex, s3, node, oc[1]):
+                out.append((s4, ("val", V.VNone) if ctl[0] != "raise" else ("raise", ctl[1])))
+        return out
 
     def difference_update(self, ex, st, c, args, kwargs, node):
-        raise Unsupported(".difference_update()")
+        """s.difference_update(xs): the members of s that are not members of xs (membership by ==)"""
+        self.difference_update.__func__.__doc__ = self.difference_update.__doc__ or ""
+        from . import builtins_model as B
+        used("set.difference_update", self.difference_update.__doc__.strip())
+        xs = ex.lift(args[0])
+        st = st.copy()
+        ns = V.fresh("setdiff")
+        x = z3.Const("x!sd", Val)
+        st.assume(z3.And(V.is_set(ns), Val.slen(ns) >= 0, Val.slen(ns) <= Val.slen(c), Val.frozen(ns) == Val.frozen(c)))
+        st.assume(z3.ForAll([x], ops._member(x, ns) == z3.And(ops._member(x, c), z3.Not(ops._member(x, xs))),
+                            patterns=[ops._member(x, ns)]))
+        alts = [(z3.And(V.is_set(c), z3.Or(V.is_list(xs), V.is_tuple(xs), V.is_set(xs))), ("val", ns)),
+                (z3.Not(z3.And(V.is_set(c), z3.Or(V.is_list(xs), V.is_tuple(xs), V.is_set(xs)))),
+                 ("unsupported", "difference_update on these operands"))]
+        out = []
+        for s3, oc in ex.apply_op(st, alts, "difference_update"):
+            if oc[0] == "raise":
+                out.append((s3, oc))
+                continue
+            for s4, ctl in B.writeback(ex, s3, node, oc[1]):
+                out.append((s4, ("val", V.VNone) if ctl[0] != "raise" else ("raise", ctl[1])))
+        return out
 
     def list_remove(self, ex, st, c, args, kwargs, node):
         raise Unsupported(".remove()")
@@ -295,6 +358,7 @@ class Table(object):
             dom = V.dict_has(d, k)
             n = Val.dlen(d)
             bound_var = k
+            st.assume(ops.to_key(ops.key_to_val(k)) == k)       # the value iteration yields for a key maps back to it
         elif isinstance(it, View):
             raise Unsupported("comprehension over dict keys/values")
         else:
@@ -322,13 +386,17 @@ class Table(object):
                 results.extend(ex.eval(s1, e.elt))
         base_len = len(st.pc) + 1
         vals, raises = [], []
+        changed_ghost = set()
         for s2, oc in results:
             for f, arr in s2.heap.items():
                 if f in heap_before and not arr.eq(heap_before[f]) or (f not in heap_before and not arr.eq(s2.heap0.get(f, arr))):
                     raise Unsupported("comprehension body writes heap field %s" % f)
             for g, val in s2.ghost.items():
-                if g in ghost_before and not val.eq(ghost_before[g]):
-                    raise Unsupported("comprehension body changes ghost %s" % g)
+                base = ghost_before.get(g)
+                if base is None:
+                    base = z3.Const("G0!" + g, self.ghost_sort(g))
+                if not val.eq(base):
+                    changed_ghost.add(g)
             guard = z3.And(*s2.pc[base_len:]) if len(s2.pc) > base_len else z3.BoolVal(True)
             if oc[0] == "raise":
                 raises.append((guard, oc[1], s2))
@@ -336,17 +404,24 @@ class Table(object):
                 vals.append((guard, oc[1], s2))
             st.obligations.extend(o for o in s2.obligations if o not in st.obligations)
         # fresh symbols created in the body depend on the element: make them functions of the bound var
+        keep = [bound_var]
+
         def close(term):
-            consts = _fresh_consts(term, mark, exclude=(bound_var,))
+            consts = _fresh_consts(term, mark, exclude=tuple(keep))
             subs = []
             for cst in consts:
                 fn = z3.Function(cst.decl().name() + "@", bound_var.sort(), cst.sort())
                 subs.append((cst, fn(bound_var)))
             return z3.substitute(term, *subs) if subs else term
 
+        # ghost state the body may change (logs of calls made for each element) is havocked after the map: the
+        # rule says nothing about it
+        for g in sorted(changed_ghost):
+            st.ghost[g] = V.fresh("G_after_map_" + g, self.ghost_sort(g))
         out = []
         if kind == "dict":
             newget = V.fresh("mapget", V.GetArr)
+            keep.append(newget)
             facts = []
             for guard, kv, s2 in vals:
                 keyv, valv = ex.lift(kv[0]), ex.lift(kv[1])
@@ -357,14 +432,17 @@ class Table(object):
                     chk.add(ops.to_key(keyv) != k)
                     if chk.check() != z3.unsat:
                         raise Unsupported("dict comprehension with a computed key")
-                facts.append(z3.Implies(z3.And(dom, guard), z3.Select(newget, k) == valv))
-            body = close(z3.And(*facts)) if facts else z3.BoolVal(True)
+                facts.append(z3.And(guard, z3.Select(newget, k) == valv))
+            # for every key some value path of the body was taken: its whole path condition (including what the
+            # contracts of the calls it made guarantee) holds for that key, and it produced the stored value
+            body = close(z3.Implies(dom, z3.Or(*facts))) if facts else z3.BoolVal(True)
             res = V.VDict(n, Val.dhas(d), newget)
             quant = z3.ForAll([k], body, patterns=[z3.Select(newget, k)])
         else:
             newarr = V.fresh("maparr", V.IntArr)
-            facts = [z3.Implies(z3.And(dom, guard), z3.Select(newarr, j) == ex.lift(v)) for guard, v, s2 in vals]
-            body = close(z3.And(*facts)) if facts else z3.BoolVal(True)
+            keep.append(newarr)
+            facts = [z3.And(guard, z3.Select(newarr, j) == ex.lift(v)) for guard, v, s2 in vals]
+            body = close(z3.Implies(dom, z3.Or(*facts))) if facts else z3.BoolVal(True)
             res = V.VList(n, newarr)
             quant = z3.ForAll([j], body, patterns=[z3.Select(newarr, j)])
             if kind == "gen":
@@ -372,8 +450,6 @@ class Table(object):
         if raises:
             anyraise = close(z3.Or(*[g for g, _, _ in raises]))
             s_ok = st.copy()
-            s_ok.assume(z3.ForAll([bound_var], z3.Implies(dom, z3.Not(anyraise)),
-                                  patterns=[_some_pattern(dom, bound_var, it, is_dict_items)]))
             s_ok.assume(quant)
             s_ok.sig.append("comp:all-ok")
             if ex.feasible(s_ok):
